@@ -48,6 +48,8 @@ def draw_case(data, tier):
         case["C"] = data.draw(st.integers(1, 9 if big else 3), label="C")
         case["O"] = data.draw(st.integers(1, 9 if big else 3), label="O")
     case["seed"] = data.draw(st.integers(0, 2**20), label="seed")
+    # storage dtype of image and filter (the operation is defined on real values; integer-typed arrays are accepted and cast)
+    case["dtype"] = data.draw(st.sampled_from(["float32", "float32", "float32", "int32", "int8", "uint8", "int16"]), label="dtype")
     cck = data.draw(st.integers(0, 2), label="cc_k")
     case["cc"] = [cck, cck + data.draw(st.integers(0, 2 if d == 2 else 1), label="cc_out_k")]
     case["ab"] = [data.draw(st.integers(-2, 3), label="a"), data.draw(st.integers(-3, 2), label="b")]
@@ -65,8 +67,12 @@ def is_risky(case):
     return o["lhs"] is not None and max(o["lhs"]) > 1
 
 
+_DTYPE = ["float32"]
+
+
 def _lib_conv(d, A, F, kw):
-    return np.asarray(geom.convolve(d, jnp.asarray(A, dtype=jnp.float32), jnp.asarray(F, dtype=jnp.float32), **kw))
+    dt = getattr(jnp, _DTYPE[0])
+    return np.asarray(geom.convolve(d, jnp.asarray(A, dtype=dt), jnp.asarray(F, dtype=dt), **kw)).astype(np.float64)
 
 
 def run_case(case):
@@ -99,6 +105,8 @@ def run_case(case):
         return result(viol("C04/reject/" + case["reject_kind"], f"documented-invalid input returned an array of shape {out.shape}"), True, key, labels)
 
     rng = np.random.default_rng(case["seed"])
+    _DTYPE[0] = case.get("dtype", "float32") if mode == "rand" else "float32"
+    labels.append("dtype_" + _DTYPE[0])
     if mode == "basis":
         nA = int(np.prod(sp)) * d**k
         nF = int(np.prod(fs)) * d**kf
@@ -111,8 +119,9 @@ def run_case(case):
             F = gen.basis(fs + (d,) * kf).reshape((nF, 1) + fs + (d,) * kf)
     if mode != "basis":
         B, C, O = case["B"], case["C"], case["O"]
-        A = rng.integers(-3, 4, size=(B, C) + sp + (d,) * k)
-        F = rng.integers(-3, 4, size=(O, C) + fs + (d,) * kf)
+        lo_val = 0 if _DTYPE[0] == "uint8" else -3
+        A = rng.integers(lo_val, 4, size=(B, C) + sp + (d,) * k)
+        F = rng.integers(lo_val, 4, size=(O, C) + fs + (d,) * kf)
     # call history: a "twin" option set with identical array shapes but other torus flags (or another filter dilation) is
     # evaluated first, so that anything memoised per shape but depending on the options shows up in the case itself
     twin = dict(opts)
@@ -139,6 +148,7 @@ def run_case(case):
         return result(viol("C04/convolve/definition", f"{opts} k={k} kf={kf}: {first_diff(got, exp)}"), nontrivial, key, labels)
 
     evals = 1
+    _DTYPE[0] = "float32"
     if mode == "rand":
         a, b = case["ab"]
         A2 = rng.integers(-3, 4, size=A.shape)
